@@ -117,7 +117,12 @@ func (*elementByFoodReporter).Process returns (err)
   modifies ghost(accKey, accP, accN, accH)
   ensures @inv EbfInv(r) && err == nil
   loop 1 { invariant @inv r == old(r) && ln == old(ln) && r.acc == old(r.acc) && r.output == old(r.output) && r.db == old(r.db) && EbfInv(r) && singleElement == r.config.SingleElement }
-  loop 2 { invariant @inv r == old(r) && ln == old(ln) && r.acc == old(r.acc) && r.output == old(r.output) && r.db == old(r.db) && EbfInv(r) && singleElement == r.config.SingleElement && node != nil }
+  loop 2 {
+    invariant @inv r == old(r) && ln == old(ln) && r.acc == old(r.acc) && r.output == old(r.output) && r.db == old(r.db) && EbfInv(r) && singleElement == r.config.SingleElement && node != nil
+    // every resolved entry that IS the chosen element is accumulated under the recipe's heading (an iteration-level
+    // statement: it holds whatever call does the accumulating, and fails if none does)
+    end { assert @accumulated [C07] AccPos(r.acc, node.Header) + AccNeg(r.acc, node.Header) == at(loop2, AccPos(r.acc, node.Header) + AccNeg(r.acc, node.Header)) + (if repl.Name == singleElement then repl.Value * e.Value else 0.0) }
+  }
   // what is accumulated per food: the recipe's own heading with quantity x its resolved amount of the chosen element
   ghost before call 1 Add { assert @by-food [C07] repl.Name == singleElement && #arg1 == node.Header && #arg2 == repl.Value * e.Value }
 
